@@ -19,7 +19,7 @@ Traffic actions:
 
 from __future__ import annotations
 
-from typing import Generator, Type, TypeVar, TYPE_CHECKING, cast
+from typing import Any, Generator, Type, TypeVar, TYPE_CHECKING, cast
 
 if TYPE_CHECKING:
     from exabgp.configuration.core.parser import Tokeniser
@@ -224,6 +224,15 @@ def _value(string: str) -> tuple[str, str]:
 
 # parse [ content1 content2 content3 ]
 # parse =80 or >80 or <25 or &>10<20
+def _converted(klass: Type[FlowConditionT], text: str) -> Any:
+    """Convert a value and refuse what the widest encoding of the component can not hold."""
+    value = klass.converter(text)
+    sizes = getattr(klass, 'VALUE_SIZES', ())
+    if sizes and isinstance(value, int) and not 0 <= int(value) < (1 << (8 * max(sizes))):
+        raise ValueError(f"'{text}' does not fit the {max(sizes)} octet(s) this flow component is encoded in")
+    return value
+
+
 def _generic_condition(tokeniser: 'Tokeniser', klass: Type[FlowConditionT]) -> Generator[FlowConditionT, None, None]:
     # Validate that the flow rule component is valid for the current address family
     afi = tokeniser.afi
@@ -245,7 +254,7 @@ def _generic_condition(tokeniser: 'Tokeniser', klass: Type[FlowConditionT]) -> G
             operator, _ = _operator(data)
             value: str
             value, data = _value(_)
-            yield klass(AND | operator, klass.converter(value))
+            yield klass(AND | operator, _converted(klass, value))
             if data:
                 if data[0] != '&':
                     raise ValueError('Unknown binary operator {}'.format(data[0]))
@@ -260,7 +269,7 @@ def _generic_condition(tokeniser: 'Tokeniser', klass: Type[FlowConditionT]) -> G
         while data:
             operator, _ = _operator(data)
             value, data = _value(_)
-            yield klass(operator | AND, klass.converter(value))
+            yield klass(operator | AND, _converted(klass, value))
             if data:
                 if data[0] != '&':
                     raise ValueError('Unknown binary operator {}'.format(data[0]))
